@@ -14,6 +14,7 @@ for validity additionally *calling* a side-effect-free stub of the same shape.
 import functools
 import inspect
 import itertools
+import os
 
 POS_NAMES = ['a', 'b', 'c']
 KWO_NAMES = ['k', 'm']
@@ -79,6 +80,20 @@ class Shape(object):
 
 
 DEF = {n: Tok('default-' + n) for n in POS_NAMES + KWO_NAMES}
+DEF2 = {n: Tok('other-default-' + n) for n in POS_NAMES + KWO_NAMES}
+
+# argument values: every slot has its own value AND its own type, so that anything built per argument in the wrong
+# order (e.g. the type tuple of a typed key) shows
+_POS_VALUES = [Tok('p0'), 11, 'p2', 2.5, (4,), b'p5']
+_KW_VALUES = {'a': Tok('kw-a'), 'b': 21, 'c': 'kc', 'k': 3.5, 'm': (5,), FOREIGN: b'kz'}
+
+
+def pos_value(i):
+    return _POS_VALUES[i] if i < len(_POS_VALUES) else Tok('p%d' % i)
+
+
+def kw_value(name):
+    return _KW_VALUES.get(name, Tok('kw-' + name))
 
 
 def shapes(npos_max=3, nkwo_max=2):
@@ -112,6 +127,29 @@ def make_callables(shape, entered, partials=True):
     out = [('function', f, 'def f(%s)' % shape.params()),
            ('method', inst.meth, 'bound method meth(self, %s)' % shape.params()),
            ('instance', inst, 'instance with __call__(self, %s)' % shape.params())]
+    # a bound method of an instance that is falsy (defines __len__ -> 0)
+    ns['C'].__name__ = 'C'
+    exec("class CF(C):\n    def __len__(self):\n        return 0\n", ns)
+    out.append(('method-falsy', ns['CF']().meth, 'bound method of a falsy instance, meth(self, %s)' % shape.params()))
+    # a callable instance that happens to have an attribute called `args` (but is no functools.partial)
+    ia = ns['C']()
+    ia.args = (Tok('attr0'), Tok('attr1'))
+    out.append(('instance-args-attr', ia, 'instance with an attribute .args and __call__(self, %s)' % shape.params()))
+    if shape.ndef or any(d for (n, d) in shape.kwo):
+        # two functions made by one factory share a code object but not their defaults: inspect the first, test the second
+        fsrc = "def make(DEF):\n" + '\n'.join('    ' + l for l in src.split('class C')[0].rstrip().split('\n')) + "\n    return f\n"
+        exec(fsrc, ns)
+        first = ns['make'](DEF)
+        if os.environ.get('KV_SESSION_VARIANT', '0') == '0':
+            # (sessions of the C17 check differ in their history: the odd ones never inspect the sibling)
+            try:
+                import klepto._inspect as _I
+                _I.signature(first)
+                _I._keygen(first, ())
+            except Exception:
+                pass
+        out.append(('sibling-closure', ns['make'](DEF2), 'second function from a factory (shares its code object with an already '
+                    'inspected sibling, other defaults), def f(%s)' % shape.params()))
     if partials:
         fixes = []
         for npf in (0, 1, 2):
@@ -137,12 +175,12 @@ def call_forms(shape, maxpos=4, maxkw=3, orders=False):
     names = shape.names() + [FOREIGN]
     out = []
     for npos in range(maxpos + 1):
-        args = tuple(Tok('p%d' % i) for i in range(npos))
+        args = tuple(pos_value(i) for i in range(npos))
         for k in range(min(maxkw, len(names)) + 1):
             for sub in itertools.combinations(names, k):
                 perms = itertools.permutations(sub) if orders else [sub]
                 for order in perms:
-                    out.append((args, [(n, Tok('kw-' + n)) for n in order]))
+                    out.append((args, [(n, kw_value(n)) for n in order]))
     return out
 
 
@@ -169,3 +207,17 @@ def really_binds(callable_, entered, args, kwitems):
         ok = bool(entered)       # a TypeError raised *inside* the body would still mean binding succeeded
     del entered[:]
     return ok, got
+
+
+def make_unbound(shape, entered):
+    """a plain function written as a method, to be called with an explicit instance: -> (function, truthy instance,
+    falsy instance of the same class, description)"""
+    ns = {'DEF': DEF, 'entered': entered}
+    ret = "{%s}" % ', '.join(["%r: %s" % (n, n) for n in shape.names()] +
+                              (["'*': args"] if shape.varargs else []) + (["'**': dict(kw)"] if shape.varkw else []))
+    src = ("class U(object):\n    def __init__(self, n):\n        self.n = n\n    def __len__(self):\n        return self.n\n"
+           "    def __eq__(self, o):\n        return isinstance(o, U)\n    def __hash__(self):\n        return 1\n"
+           "    def meth(%s):\n        entered.append(1)\n        return %s\n" % (shape.params(['self']), ret))
+    exec(src, ns)
+    U = ns['U']
+    return U.meth, U(3), U(0), 'plain function meth(self, %s) called with an explicit instance' % shape.params()
